@@ -344,7 +344,6 @@ func addCollidingDefs(t *rapid.T, c *core.Ctx, f *model.File, family string) {
 	c.Count(fmt.Sprintf("shape.colliding_defs.%s.%d", family, n))
 }
 
-
 // countShapes tallies which schema features and options a run case carries
 // (evidence: the distribution the generator actually produced).
 func countShapes(c *core.Ctx, f *model.File, cfg gen.Config) {
